@@ -83,6 +83,8 @@ for spec in captured["specs"]:
             out[act.kwargs["symbol"]] = enc(re_)
         elif act.name in ("begin_string_action", "begin_ft_string_action"):
             out[act.name] = enc(re_)
+    elif act is Actions.TEXT:
+        out["TEXT"] = enc(re_)      # (ellipsis | punct | diphthong, TEXT)
 print(json.dumps(out))
 '''
 
@@ -114,7 +116,8 @@ def pre_coq(ctx):
     d = r["json"]
     ctx._c43_dump = d
     names = [("INT", "gen_intliteral"), ("FLOAT", "gen_fltconst"), ("IMAG", "gen_imagconst"),
-             ("begin_string_action", "gen_beginstring"), ("begin_ft_string_action", "gen_begin_ft_string")]
+             ("begin_string_action", "gen_beginstring"), ("begin_ft_string_action", "gen_begin_ft_string"),
+             ("TEXT", "gen_text_rule")]
     txt = ("(* GENERATED by props/C43.py (pre_coq) from the running Lexicon.make_lexicon. Do not edit. *)\n"
            "From Coq Require Import ZArith List.\nFrom CyVerif Require Import Model.M_Plex.\nImport ListNotations.\n"
            "Open Scope Z_scope.\n\n")
@@ -179,8 +182,37 @@ def decode(text):
         return ["ok", str(v)]
     finally:
         sys.set_int_max_str_digits(4300)
+def dot_run(code):
+    """tokens between 'from' and 'import' of a one-line from-import, and the level the real parser computes"""
+    r = {"toks": None, "level": None, "err": None}
+    try:
+        s = scanner(code)
+        toks = []
+        assert s.sy == "from", s.sy
+        s.next()
+        while s.sy in (".", "..."):
+            toks.append(s.systring)
+            s.next()
+        r["toks"] = toks
+        r["next"] = s.sy
+    except BaseException as e:
+        r["err"] = "scan: %s: %s" % (type(e).__name__, str(e)[:80])
+    Errors.hold_errors()
+    try:
+        node = Parsing.p_from_import_statement(scanner(code), first_statement=0)
+        mod = getattr(node, "module", None)
+        r["level"] = getattr(mod, "level", None)
+        r["node"] = type(node).__name__
+    except Errors.CompileError as e:
+        r["err"] = "parse: " + str(e.message_only)[:80]
+    except BaseException as e:
+        r["err"] = "parse: %s: %s" % (type(e).__name__, str(e)[:80])
+    finally:
+        Errors.release_errors(ignore=True)
+    return r
 def main():
     spec = json.load(sys.stdin)
+    dots_res = [dot_run(c) for c in spec.get("dot_runs", [])]
     out = []
     sys.set_int_max_str_digits(4300)
     for t in spec["tokens"]:
@@ -194,7 +226,7 @@ def main():
             r["dec"] = d
         out.append(r)
     pyload.assert_sources()
-    print(json.dumps(out))
+    print(json.dumps({"tokens": out, "dots": dots_res}))
 sys.set_int_max_str_digits(0)
 main()
 '''
@@ -304,10 +336,12 @@ def run_tokens(ctx):
             toks += ["1" * n, "9" * n + "L", "0x" + "f" * n, "0o" + "7" * n, "0b" + "1" * n, "0" * n, "1" * n + "j",
                      "1" * n + ".5", "0" + "7" * n, "1_" * (n // 2) + "1"]
     toks = [t for t in dict.fromkeys(toks) if t and t[0] not in "+-"]
-    r = cybuild.run_script(TOKRUN, os.path.join(ctx.workdir, "tok"), {"tokens": toks}, name="tokrun.py", timeout=1200)
+    r = cybuild.run_script(TOKRUN, os.path.join(ctx.workdir, "tok"), {"tokens": toks, "dot_runs": [c for _, _, c in dot_run_codes()]},
+                           name="tokrun.py", timeout=1200)
     if r["json"] is None:
         raise RuntimeError("C43 token runner failed: " + (r["err"] or r["out"])[-1500:])
-    impl = r["json"]
+    impl = r["json"]["tokens"]
+    ctx._c43_dots = r["json"]["dots"]
     m = ctx.model("lexicon")
     enc = lambda t: ",".join(str(ord(c)) for c in t)
     kinds = m.batch(["kind %s %s" % ("true" if FX_IMAG else "false", enc(t)) for t in toks])
@@ -353,6 +387,46 @@ def run_tokens(ctx):
         sys.set_int_max_str_digits(old)
     ctx.extra.setdefault("exhaustive_domains", []).append(
         "all %d non-empty strings over %r up to length %d as token texts" % (n_ex, TOK_ALPHA_SMALL, maxlen))
+
+
+DOT_RUN_TOP = 40
+
+
+def dot_run_codes():
+    codes = []
+    for n in range(1, DOT_RUN_TOP + 1):
+        codes.append((n, "glued", "from %s import x" % ("." * n)))
+        codes.append((n, "glued_mod", "from %spkg.mod import y as z" % ("." * n)))
+        if n <= 12:
+            codes.append((n, "spaced", "from %s import x" % " ".join("." * n)))
+            for i in range(1, n):
+                codes.append((n, "split%d" % i, "from %s %s import x" % ("." * i, "." * (n - i))))
+    return codes
+
+
+def run_dot_runs(ctx):
+    """runs of 1..40 dots after 'from': real scanner tokens and the real parser's import level vs the proved model
+    (C43_dot_run_scan: n/3 ellipsis tokens then n mod 3 dots, level n) vs CPython's ast (ImportFrom.level)"""
+    top = DOT_RUN_TOP
+    codes = dot_run_codes()
+    dots_json = ctx._c43_dots       # scanned and parsed by the token runner process (run_tokens)
+    m = ctx.model("lexicon")
+    mod = {n: x.split("|") for n, x in zip(range(1, top + 1), m.batch(["dots %s %d" % ("true" if FX_IMAG else "false", n) for n in range(1, top + 1)]))}
+    for (n, form, code), im in zip(codes, dots_json):
+        ctx.case("dot_run_%s" % ("glued" if form.startswith("glued") else "spaced"), code, sig=("dots", code))
+        pylevel = ast.parse(code).body[0].level            # oracle: CPython
+        scan, spec, level = mod[n]
+        if scan != spec or int(level) != n:
+            ctx.corr_break("dot_run_model_closed_form", n, scan, spec)
+        if form.startswith("glued"):
+            want = [len(t) for t in (im["toks"] or [])]
+            if im["toks"] is None or " ".join(map(str, want)) != scan:
+                ctx.corr_break("scanner_dot_run_tokens", code, im["toks"] if im["toks"] is not None else im["err"], scan)
+        if im["level"] != pylevel:
+            ctx.fail("relative_import_level:%s" % ("ellipsis_token" if "..." in code else "dots"), {"ext": ".py", "src": code + "\n"},
+                     {"level": im["level"], "error": im["err"], "tokens": im["toks"]}, {"level": pylevel})
+        elif form.startswith("glued") and im["level"] != int(level):
+            ctx.corr_break("parser_import_level", code, im["level"], level)
 
 
 # ------------------------------------------------------------------------------------------------
@@ -1197,6 +1271,7 @@ def run_programs(ctx):
 
 def run(ctx):
     run_tokens(ctx)
+    run_dot_runs(ctx)
     run_programs(ctx)
     if os.environ.get("C43_DUMP_FAILS"):       # development aid: every failure of this run, uncapped by class
         with open(os.environ["C43_DUMP_FAILS"], "w") as f:
